@@ -502,6 +502,25 @@ func checkC23(p *Prog, r *Result, tier string) {
 		for _, l := range BU.Lits {
 			scan(l)
 		}
+		if firstWrite == nil {
+			// the writing tail as a helper of the package (`return r.txSet(ctx, data)`): the call is where the writes happen
+			for _, c := range BU.calls(func(f *types.Func) bool { return f.Pkg() == BU.Pkg.Types }) {
+				H := p.ByObj[BU.Callee(c)]
+				if H == nil || H.Body == nil || H == BU || firstWrite != nil {
+					continue
+				}
+				writes := false
+				for _, g := range append([]*FuncNode{H}, H.Lits...) {
+					scan(g)
+					if len(g.calls(func(f *types.Func) bool { n := f.Name(); return n == "Set" || n == "MSet" || n == "TxPipelined" })) > 0 {
+						writes = true
+					}
+				}
+				if writes {
+					firstWrite = c
+				}
+			}
+		}
 		var guard *ast.IfStmt
 		if firstWrite != nil {
 			guard, _ = guardedBy(BU, firstWrite, func(fn *FuncNode, is *ast.IfStmt) bool {
